@@ -8,6 +8,7 @@ CONSTANTS
   AllValues = FALSE
   Rots = {0}
   PatSet = {"zeros"}
+  Boundaries = {1}
   NearFields = 0
   EFN = {2}
   EFMaxThreads = 2
